@@ -80,6 +80,7 @@ class Task(object):
 class Actor(object):
     """Something other than a task that the scheduler may fire (network, fault)."""
     name = 'actor'
+    urgent = False     # True: fires as soon as it is ready, ahead of any scheduling choice
 
     def ready(self, now):  # pragma: no cover
         return False
@@ -275,8 +276,15 @@ class Sim(object):
         while self.timers and self.timers[0][0] <= self.now:
             _, _, fn = self.timers.pop(0)
             fn()
+        for a in self.actors:
+            if a.urgent and a.ready(self.now):
+                self.steps += 1
+                self.sched_sig.update(('U:%s|' % a.name).encode())
+                self.log('urgent', a.name)
+                a.fire(self)
+                return True
         ready = self._ready_tasks()
-        acts = [a for a in self.actors if a.ready(self.now)]
+        acts = [a for a in self.actors if not a.urgent and a.ready(self.now)]
         n = len(ready) + len(acts)
         if n == 0:
             nt = self._next_time()
@@ -361,3 +369,22 @@ class Sim(object):
 
 def _never():
     return False
+
+
+class Trigger(Actor):
+    """One-shot fault: fires `action` the first time `pred()` holds (checked before every
+    scheduling step, i.e. while every task is parked at a seam)."""
+    urgent = True
+
+    def __init__(self, name, pred, action):
+        self.name = name
+        self.pred = pred
+        self.action = action
+        self.fired = False
+
+    def ready(self, now):
+        return not self.fired and self.pred()
+
+    def fire(self, sim):
+        self.fired = True
+        self.action()
